@@ -125,7 +125,7 @@ def read_log(path):
 
 def units(tier, seed):
     us = []
-    sizes = (0, 1, 2, 3)
+    sizes = (0, 1, 2, 3) if tier == "quick" else (0, 1, 2, 3, 4)
     for n in sizes:
         for pop in itertools.product(KINDS, repeat=n):
             if n and pop[0] == "dup":
